@@ -1,6 +1,6 @@
 CONSTANTS
   Tier = "quick"
-  SampleN = 500
+  SampleN = 400
 INIT GInit
 NEXT GNext
 CHECK_DEADLOCK FALSE
